@@ -161,6 +161,15 @@ func runConcFactory(c *concCase) {
 				if err != nil || !bytes.Equal(pt, []byte("warm-"+p)) {
 					vs.add("thread %d: Decrypt of an earlier record of its partition failed: %v", t, err)
 				}
+				if tr.Chance(1, 3) { // an operation that FAILS while the session is held: it must leave the sharing bookkeeping as it was
+					bad := *recs[p]
+					bad.Data = append([]byte(nil), bad.Data...)
+					bad.Data[len(bad.Data)/2] ^= 0x40
+					if _, err := sess.Decrypt(ctx, bad); err == nil {
+						vs.add("thread %d: Decrypt of a tampered record did not fail", t)
+					}
+					atomic.AddInt64(&ops, 1)
+				}
 				if common == nil {
 					sess.Close()
 				}
